@@ -68,3 +68,13 @@ add("C18", "exploration",
     "Backward: 24 committed directories written by the pinned version (clean, copied while open, torn) must open on OS/OSMMap/Mem/CrashFS with the recorded contents, with/without recovery as appropriate, with a consistent index, and survive a further session. Forward: at every checkpoint of generated histories the independent decoder must accept every segment file up to its last byte, names must be %05d-%d.psg with sequence ids ordering creation, index files must carry the documented header, and the decoder's replay in sequence order must equal the reference.",
     "Corpus generated once from commit 0e387fd + hook commits (no fix commits) by tools in this tree (pvh gengolden). The decoder defines the documented format.",
     "DESIGN.md 4/C18")
+add("C11", "exploration",
+    "runtime monitor over recorded scan events: exact multiset comparison on quiescent scans; for scans interleaved with writes (deterministically by the harness, and by real goroutines under the race detector) a ticket-ordered truthfulness oracle and a stable-key completeness oracle",
+    "Quiescent scans on every index shape reached by generated programs must equal the reference exactly and ErrIterationDone must be sticky; scans interleaved with inserts that split buckets (incl. level changes), chain deletes, overwrites and compactions - placed between Next calls by the harness or performed by concurrent goroutines - must only return pairs whose Put had been called before that Next returned and must return every stable key (engineered into every bucket and into overflow chains).",
+    "Inserts per scan are capped (termination under unbounded growth is not claimed). Real-goroutine cases cover only the interleavings the scheduler produced.",
+    "DESIGN.md 4/C11")
+add("C13", "exploration",
+    "stateless schedule exploration (DFS) of the real Open/Close lock code against the real kernel flock, stepping participants at verif yield hooks between system calls; holder-count monitor; session-chain monitor with the recovery-event hook",
+    "Every interleaving, at system-call granularity, of A:Close[,Open] / B:Open[,Close] / C:Open is executed against the real file system and flock (2 participants exhaustively in the quick tier, 3 participants sampled by subtree in quick and exhaustively in thorough); at no step may two handles be open, failed Opens must return 'locked', acknowledged writes must survive. All 32 clean/unclean 5-session chains per file system check that recovery runs exactly after unclean ends and that a rejected competing Open leaves the directory byte-identical.",
+    "flock semantics between open file descriptions of one process equal those between processes. More than three concurrent openers and non-unix lock implementations are not explored.",
+    "DESIGN.md 4/C13")
